@@ -10,7 +10,7 @@ ASSUMPTIONS = [
     "shrink unit: the AST is projected on spans and last sub-expressions (arena references are boxes, unread payloads opaque); slice patterns are desugared to length tests (R-slice); Span::new's ordering contract is assumed there and proved by the Kani harness C08/span/new_contract; `visible_end` (which sub-expression ends each kind of expression) is my specification, taken from the grammar",
     "termination not proved by Kani",
 ]
-NOT_UNDER_CONTRACT = ["parser/src/infix.rs reparse as a whole (the per-operator shift/reduce block IS under contract; the loop, the Infixes iterator, error recovery and the final fold are not: no grouping theorem)", "parser/src/layout.rs layout_next_token",
+NOT_UNDER_CONTRACT = ["parser/src/infix.rs reparse as a whole (the per-operator shift/reduce block IS under contract; and so is the final fold; the token loop that connects them, the Infixes iterator and error recovery are not: no grouping theorem for the whole function)", "parser/src/layout.rs layout_next_token",
                       "parser/src/token.rs tokenizer", "parser/src/grammar.lalrpop", "where shrink_hidden_spans is applied (grammar actions)"]
 POS = "base/src/pos.rs"
 INFIX = "parser/src/infix.rs"
@@ -43,6 +43,8 @@ def obligations(tier):
                  clause="the shift/reduce step of the operator-precedence re-parse: lower precedence or equal+both-left => reduce (group left), higher or equal+both-right => shift (group right), equal precedence with different associativity => ConflictingFixities error; stacks change exactly accordingly"),
             dict(engine="verus", unit="infix", function="OpTable::get", name="C08/infix/OpTable_get", source=INFIX + "::OpTable::get",
                  clause="structure check: user table consulted first, built-in table (closure body, named by an env helper) only when the name is not declared")]
+    out += [dict(engine="verus", unit="infix", function="reparse::final_fold", name="C08/infix/reparse_final_fold", source=INFIX + "::reparse (statements after the token loop)",
+                 clause="operators still pending when the input is exhausted group to the right, in order, over all operands (nothing dropped, duplicated or swapped); the closing length assertion and the unwraps cannot fire (inductive invariant + lemma)")]
     out += [dict(engine="verus", unit="shrink", function="shrink_hidden_spans", name="C08/parser/shrink_hidden_spans", source="parser/src/lib.rs::shrink_hidden_spans",
                  clause="span shrinking and block flattening against a specification of where each expression kind visibly ends: a singleton block is its expression; an expression that ends in a sub-expression keeps its start and ends where that sub-expression ends; all other nodes are untouched")]
     out += [k("gluon_parser", INFIX, "c08__builtin_ops__" + n, "built-in " + c, [INFIX + "::OpTable::get"]) for n, c in ops]
